@@ -166,6 +166,12 @@ class LibMixin:
             if m == 'at': return self.cont_call(t, 'at', o, [self.expr(args[0], rvalue=True)])
             if m == 'emplace' and len(args) == 2:
                 return self.cont_call(t, 'emplace', o, [self.expr(args[0], rvalue=True), self.expr(args[1], rvalue=True)])
+            if m == 'insert' and len(args) == 1:
+                a0 = self.skip(args[0])
+                if a0.get('kind') == 'DeclRefExpr' and self.vars.get(a0['referencedDecl']['id'], (None,))[0] == 'mapelem':
+                    rng, ix = self.vars[a0['referencedDecl']['id']][1]
+                    self.rules['unordered_map::insert(pair)'] += 1
+                    return self.cont_call(t, 'emplace', o, ['%s.keys[%s]' % (rng, ix), '%s.vals[%s]' % (rng, ix)])
             if m == 'erase' and len(args) == 1 and self.tyq(args[0]['type']).kind == 'scalar':
                 return self.cont_call(t, 'erase', o, [self.expr(args[0], rvalue=True)])
             if m == 'reserve':
@@ -287,6 +293,13 @@ class LibMixin:
         if t.kind == 'arr' and op == '[]':
             o = self.expr(args[0]); i = self.expr(args[1], rvalue=True)
             return self.chk('(size_t)%s < (size_t)%s' % (i, t.n), 'array::operator[] index < size (else UB)', '%s.data[%s]' % (o, i))
+        if t.kind == 'umap' and op == '[]':
+            o = self.expr(args[0])
+            if '.data[' in o: raise Unsupported('operator[] on a map nested in a container element')
+            ixv = self.tmp('mi')
+            self.pre.append('size_t %s = %s_ref_index(%s, %s);' % (ixv, t.c, self.addr(o), self.expr(args[1], rvalue=True)))
+            self.rules['unordered_map::operator[]'] += 1
+            return '%s.vals[%s]' % (o, ixv)
         if t.kind == 'bitref' and op == '=':
             return '(%s = %s)' % (self.expr(args[0]), self.expr(args[1], rvalue=True))
         if t.kind == 'vec' and op == '[]':
